@@ -50,6 +50,8 @@ def _mk_frame(spec, ao):
     if k == "generic1":
         return cf.CoordinateFrame(naxes=1, axes_type=(spec["atype"],), axes_order=tuple(ao), unit=(u.Unit(spec["unit"]),), name=spec["name"],
                                   axes_names=(spec["name"] + "_ax",))
+    if k == "frame2d":
+        return cf.Frame2D(axes_order=tuple(ao), unit=(u.m, u.m), name=spec["name"], axes_names=(spec["name"] + "_x", spec["name"] + "_y"))
     return cf.CoordinateFrame(naxes=2, axes_type=("SPATIAL", "SPATIAL"), axes_order=tuple(ao), unit=(u.m, u.m), name=spec["name"],
                               axes_names=(spec["name"] + "_x", spec["name"] + "_y"))
 
@@ -277,7 +279,7 @@ def _key(case):
 
 
 def _key30(case):
-    if not case.get("lone") and any(s["kind"] == "generic2" for s in case["subframes"]):
+    if not case.get("lone") and any(s["kind"] in ("generic2", "frame2d") for s in case["subframes"]):
         return "D30"      # a multi-axis generic CoordinateFrame inside a CompositeFrame comes back as one nested tuple
     return None
 
@@ -342,7 +344,7 @@ def oracle(case, res):
     elif any(abs(a - b) > 1e-9 * max(1.0, abs(b)) for a, b in zip(res["own_back"], world)) or len(res["own_back"]) != n:
         out.append((k11 or "components", "components applied to pixel_to_world's objects give %s, world values are %s" % (res["own_back"], world)))
     pix = _pix(case)
-    k30r = k30 if (k30 and case["subframes"][0]["kind"] == "generic2") else None   # the nested tuple listed first is taken for a number
+    k30r = k30 if (k30 and case["subframes"][0]["kind"] in ("generic2", "frame2d")) else None   # the nested tuple listed first is taken for a number
     for nm in ("w2p", "invert"):
         if nm + "_err" in res:
             out.append((k11 or k30r or "roundtrip", "%s(*pixel_to_world(p)) raised %s" % (nm, res[nm + "_err"])))
@@ -488,3 +490,7 @@ def gen(rng, tier):
                 ab[ao[0]] = [1.0, 0.0]
                 pix[ao[0]] = float(rng.randint(1, 4))
         yield {"subframes": subs, "axes_orders": aos, "ab": ab, "lone": lone, "pix": pix}
+    # a Frame2D (focal plane, slit plane ...) next to a spectral axis, on each pair of world axes and in both orders
+    for k, aos in enumerate([[[2], [0, 1]], [[0], [1, 2]], [[1], [0, 2]], [[0], [2, 1]], [[2], [1, 0]]] * (1 if tier == "quick" else 6)):
+        yield {"subframes": [{"kind": "spectral", "name": "spec0", "unit": "um"}, {"kind": "frame2d", "name": "plan1"}], "axes_orders": aos,
+               "ab": [[float(1 + (k + i) % 3), [0.25, 1.5, 2.0][(k + 2 * i) % 3]] for i in range(3)], "lone": False, "pix": PIX[:3]}
